@@ -568,17 +568,22 @@ func analyzeDelegators(p *load.Program, r *Roles, res *UnitResult) {
 					// where a configured function is known to be set, it is the one that is called
 					// (a path without any call is fine only as the inline default)
 					for _, f := range configured {
-						if pth.e.Eval(pth.st.Facts(), eng.Bin("!=", f, eng.Nil())) == eng.TriTrue {
-							called := false
-							for _, uc := range pth.calls {
-								called = called || uc.fnTerm == f
-							}
-							if !called {
-								okOnce, whyOnce = false, "the function "+f.Pretty()+" is set but the path returns without calling it"
-							}
+						called := false
+						for _, uc := range pth.calls {
+							called = called || uc.fnTerm == f
+						}
+						if !called && pth.e.Eval(pth.st.Facts(), eng.Bin("==", f, eng.Nil())) != eng.TriTrue {
+							okOnce, whyOnce = false, "the path returns without calling "+f.Pretty()+" although that function is not known to be unset on it (the decision to skip the user's function is taken on something else)"
 						}
 					}
-					col.CheckAt("C01.R6,C06.R8,C07.R7", tn+"."+m+":calls-once", okOnce, pth.pos, fmt.Sprintf("a phase method does its work exactly once per call - the configured function or the default, never neither (an input silently passed over) and never twice: in %s.%s %s", tn, m, whyOnce), nil)
+					ruleOnce := "C01.R6"
+					switch m {
+					case "Exec":
+						ruleOnce += ",C06.R8,C07.R7" // every item is processed by the user's function
+					case "ExecFallback":
+						ruleOnce += ",C02.R4,C07.R7" // the fallback a node configured is the one that is consulted
+					}
+					col.CheckAt(ruleOnce, tn+"."+m+":calls-once", okOnce, pth.pos, fmt.Sprintf("a phase method does its work exactly once per call - the configured function or the default, never neither (an input silently passed over) and never twice: in %s.%s %s", tn, m, whyOnce), nil)
 				}
 				// an adapter may report success only after it has seen the callee's error to be nil
 				for _, uc := range pth.calls {
